@@ -14,12 +14,21 @@ EXPLANATION = ("R1: every array-indexed copy of the BLAKE3 round function is eva
                "exact piecewise-affine abstract interpretation over the counter's low word with partition refinement: lane i "
                "= (lo32, hi32)(counter + i*increment) on every cell, for both increment modes. F8: the block-flag schedule inside every hash1/hashN copy (Rust x6, C x10): flags|flags_start before the first block, |= flags_end under the last-block test, reset to flags after each compression. ST: every stage of the hash_many / xof_many drivers (C x14 stages, Rust x3) consumes N items, advances the counter by N (under increment_counter for hash_many), the output by N*32 (N*64 for xof) and passes the cursors through to the width-N kernel. K5: the 16 rows of every transposed state (C hash4/8/16, xof4/8/16; Rust hash4/hash8) are "
                "h_vecs[0..8] = set1(key|cv[i]), set1(IV[0..4]), counter lo, counter hi (the two outputs of load_counters*), block length, flags. "
-               "See the property's residual in DESIGN.md: shuffle-based single-block kernels, transposition networks "
-               "and the semantics of the assembly bodies are NOT decided by R1.")
-TRUSTED = ["rustc nightly MIR; clang JSON AST", "engines/rules/symexec.py term normal form", "engines/specmodel/blake3_spec.py G network",
+               "R1asm (the hand-written assembly, i.e. the default build, ELF and Windows-GNU objects): lane-precise symbolic value "
+               "numbering of the ASSEMBLED code with the exact lane semantics of every shuffle/blend/permute/insert it uses. "
+               "R1asm1: all 12 compress_in_place / compress_xof routines, whole function (the 7-round loop has a constant trip count), "
+               "output words, reads and writes equal the spec term for term. R1asmH: every stage of every hash_many (60 stage "
+               "instances: 16/8/4/2/1-input x 4 ISAs x 2 flavours x 2 increment modes) as cut-point regions -- loop body = spec "
+               "compression per input incl. the transposition, h := key and flags := flags|flags_start in the preheader, |flags_end on "
+               "the last block and reset to flags, message = 64 bytes at inputs[g]+offset, counter slots per lane, epilogue stores "
+               "out[32g+4i], cursor/counter updates with carry, stage guards, prologue counter arrays, and the memory footprint of "
+               "every region. R1asmX: xof_many stage by stage likewise. "
+               "Residual: the shuffle-based single-block compress_pre copies in the C/Rust INTRINSICS files (ties only via K/F/ST rules) "
+               "and the MSVC .asm flavour (cannot be assembled here).")
+TRUSTED = ["rustc nightly MIR; clang JSON AST", "clang -c + llvm-objdump disassembly and engines/asmabi/asmsym.py instruction semantics (about 100 mnemonics, lane-exact; unknown forms fail closed)", "engines/rules/symexec.py term normal form", "engines/specmodel/blake3_spec.py G network",
            "vendor intrinsics _mm*_add_epi32 / xor / or / srli / slli / ror are lane-wise 32-bit operations"]
-ASSUMPTIONS = ["the transposed kernels are lane-parallel by construction (each lane is one independent hash)"]
-TECHNIQUE = "symbolic value numbering of straight-line round functions against spec-generated terms"
+ASSUMPTIONS = ["uint8_t / bool register arguments arrive zero-extended (as every mainstream compiler passes them; the sse2/sse41 kernels rely on it)", "stores through `out` do not alias the inputs read later in the same region"]
+TECHNIQUE = "symbolic value numbering (hash-consed terms, no solver, nothing executed) of round functions in MIR / clang AST and of cut-point regions of the assembled kernels, against spec-generated terms; piecewise-affine lane-counter interpretation"
 DESIGN_REF = "DESIGN.md section 2 (R1-R3, K2, K4, M2, M5-M7, A7, A8) and section 4 (C05)"
 
 
